@@ -44,10 +44,24 @@ class C09(Check):
         for i in range(n):
             yield {"i": i, "seed": seed, "backend": "s3" if i % 4 == 3 else "local",
                    "clock": "coarse" if i % 2 else "real"}
+        # scripted: manifests shared by several snapshots, dropped or rewritten by a delete, then every expiry cutoff
+        # (metadata-only and combined with an append), then a collection - every retained snapshot is re-read each step
+        k = 0
+        for first in (("append", 2), ("multi", [1, 1])):
+            for dele in (("delete", 1, "lead"), ("delete_append", 1)):
+                for which in (0, 1, 2, 3):
+                    for mode in ("plain", "with_append"):
+                        ops = [first, ("append", 1), ("append", 1), dele, ("append", 1), ("expire", which, 1, mode),
+                               ("gc", 0), ("append", 1), ("expire", "all", 0, "plain"), ("gc", 0)]
+                        yield {"i": 100000 + k, "seed": seed, "backend": "s3" if k % 5 == 4 else "local", "clock": "real",
+                               "script": [list(o) for o in ops]}
+                        k += 1
 
     def run_case(self, case: Any, res: CaseResult, tier: str) -> None:
         rng = rng_for(case["seed"], "c09", case["i"])
         ops = history.gen_ops(rng, rng.randint(6, 15), ALPHABET)
+        if case.get("script"):
+            ops = [tuple(o) for o in case["script"]]
         ip = Interposer().install()
         clock = history.Clock(case["clock"], rng)
         overwrites: List[str] = []
